@@ -116,7 +116,7 @@ def optexc(cx, qual, seeds, nonnull=()):
         exc = None
         what = None
         if isinstance(c, ast.Call):
-            d = dotted(c.func)
+            d = fn.callee(c)
             if d in MAY_RAISE_CALLS and c.args and _mentions_taint(c.args[0], t):
                 exc = set(MAY_RAISE_CALLS[d])
                 what = '%s(...) of a keyword value' % d
